@@ -160,6 +160,7 @@ type Machine struct {
 	preemptLock bool
 	preemptBound int
 	preemptAt   []string
+	timersOff   bool
 	xcheckEvery int
 	xcheckMax   int
 	xcheckDir   string
